@@ -145,8 +145,26 @@ def register_dominance(R):
         if not looks:
             return z3.BoolVal(required)
         h = looks[-1][2]['heap']
-        had = S.children(h, r_of(selfv.t)).has(name.t)
-        return z3.Or(had, z3.BoolVal(required))
+        m = S.children(h, r_of(selfv.t))
+        had = m.has(name.t)
+        old_is_container = S.is_composed(sc.eng, h.cls(r_of(m.get(name.t))))
+        # a key the older mapping lacks: adopted only after the new-path check of the adopted subtree; a LEAF that is replaced:
+        # what takes its place has been checked below itself (C08: a container replacing a leaf must not smuggle !notnew entries in)
+        return z3.And(z3.Or(had, z3.BoolVal(required)), z3.Implies(z3.And(had, z3.Not(old_is_container)), z3.BoolVal(required)))
+
+    def gate_require(sc, kw):
+        # the new-key form of the check (whole subtree, the node itself included) is used only for keys the older mapping does NOT
+        # have: an existing child - also an empty or otherwise false-ish one - is merged, never treated as new (C02)
+        if 'include_self' in kw.get('kwargs', {}):
+            return z3.BoolVal(True)
+        if kw['args'][0].t.eq(sc['other']):
+            return z3.BoolVal(True)          # the whole newer node replacing an emptied older one (deleting branch): checked as a whole
+        prior = [e for e in sc.events if e[2].get('index', -1) < kw['index'] and e[0] == 'lookup-child']
+        if not prior:
+            return z3.BoolVal(False)
+        look = prior[-1][2]
+        m = S.children(look['heap'], r_of(look['args'][0].t))
+        return z3.Or(z3.Not(m.has(look['args'][1].t)), is_none(m.get(look['args'][1].t)))
 
     ok = lambda sc, kw: z3.BoolVal(True)
     R.add(Contract(C + 'ComposedNode.ayns.on_merge_impl', [P.node('self', 'ConfigDict', exact=True), P.path('path'), P.node('other', 'ConfigDict', exact=True)],
@@ -154,13 +172,47 @@ def register_dominance(R):
                    requires=lambda c: [('valid', z3.And(S.valid_flags(c.pre, c.ref('self')), S.valid_flags(c.pre, c.ref('other'))))],
                    modifies=anyall(NODEF), raises=[Raises('ValueError'), Raises('MergeError'), Raises('TypeError'), Raises('KeyError'), Raises('IndexError')],
                    loops={0: Loop(lambda c, L: [], mod_locals=['key', 'value', 'child', 'merge', 'possibly_new_child'], mod_fields=NODEF)},
-                   props=('C08',),
+                   props=('C08', 'C02'),
                    opts={'use': USE, 'watch': WATCH, 'verify_only': True, 'no_search': True, 'assume_children_are_objects': True, 'no_frame': True,
-                         'gates': {'adopt': gate_adopt, 'lookup-child': ok, 'require-new': ok, 'C04+C05.pruning-walk': gate_filter},
+                         'gates': {'adopt': gate_adopt, 'lookup-child': ok, 'require-new': gate_require, 'C04+C05.pruning-walk': gate_filter},
                          'gates_on_raise': True, 'skip_kinds': ('pre', 'safety')},
                    note='order of operations in one iteration of the key loop: adoption of a key the older mapping lacks is dominated by the new-path check; callee preconditions and run-time type safety are NOT obligations of this instance (they belong to the functional contracts)'))
+
+
+def register_traversals(R):
+    """ComposedNode.on_preprocess_impl / on_premerge_impl (C16, C06): one-line wrappers of the generic traversal map_nodes; what is
+    decided is the CALL CONVENTION - the traversal visits the children of the receiver (no recursion of its own: every child's own hook
+    recurses), hands every child the hook with its path, and is told where the receiver lives (prefix == path), so that operators below
+    the top level look their targets up at their full path."""
+    anyall = lambda fields: (lambda c: [(f, 'all') for f in fields])
+    NODEF = ['_priority', '_delete', '_allow_new', '_safe', '_implicit_delete', '_implicit_allow_new', '_implicit_safe', '_default_safe', '_metadata',
+             '_pyyaml_node', '_children', '$mlen', '$mkeyat', '$mpos', '$mval', '$llen', '$litem', '$pset', '_func']
+    R.add(Contract(C + 'ComposedNode.ayns.map_nodes', [P.node('self', 'ComposedNode')], name='abstract', assume_only=True, modifies=anyall(NODEF),
+                   result=P.node('result', 'ConfigNode', maybe_fresh=True), raises=[Raises('Exception')], props=('C16', 'C06'),
+                   opts={'callee': False, 'bind_partial': True}, note='generic traversal with re-setting of replaced children: any effect on the subtree; returns a node'))
+
+    def gate_traverse(sc, kw):
+        recv = kw['args'][0]
+        k = kw['kwargs']
+        pre = k.get('prefix')
+        if not isinstance(pre, PathV):
+            return z3.BoolVal(False)
+        flags = []
+        for nm, want in (('recurse', False), ('include_self', False), ('leafs_only', False)):
+            v = k.get(nm)
+            flags.append(z3.BoolVal(False) if not isinstance(v, SV) else (v.t == (sym.TRUE if want else sym.FALSE)))
+        return z3.And(recv.t == sc['self'], pre.s == sc.a['path'].s, *flags)
+
+    for fn, second in (('on_premerge_impl', P.node('into', 'ConfigNode')), ('on_preprocess_impl', P.val('builder', 'any'))):
+        R.add(Contract(C + 'ComposedNode.ayns.' + fn, [P.node('self', 'ComposedNode'), P.path('path'), second], name='traversal-convention',
+                       modifies=anyall(NODEF), raises=[Raises('Exception')], result=P.node('result', 'ConfigNode', maybe_fresh=True), props=('C16', 'C06'),
+                       opts={'use': {C + 'ComposedNode.ayns.map_nodes': 'abstract'}, 'watch': {C + 'ComposedNode.ayns.map_nodes': 'C16+C06.children-visited-with-their-full-paths'},
+                             'gates': {'C16+C06.children-visited-with-their-full-paths': gate_traverse}, 'no_search': True, 'verify_only': True, 'no_frame': True,
+                             'skip_kinds': ('pre', 'safety')},
+                       note='call convention of the traversal only'))
 
 
 def _reg_all(R):
     register(R)
     register_dominance(R)
+    register_traversals(R)
